@@ -4,6 +4,8 @@
 //
 //	C <mode lt|et|os> <np> <maxwb> <listener 0|1>
 //	add <id> <tcp|unix>            AddConn of a conn around a virtual descriptor
+//	addc <id> <tcp|unix>           … whose open notification closes the conn (Close from inside OnOpen)
+//	dialx <id>                     DialAsync whose epoll registration fails (EEXIST): the error return is the report
 //	addudp <id>                    UDP listener around a virtual descriptor
 //	dgram <id> <addr> <payload>    datagram queued on the listener (sessions get ids 100*id+k in order of opening)
 //	dial <id> <inprog|now|refused> <timeout ms>   DialAsync; connect(2) is answered EINPROGRESS / 0 / ECONNREFUSED
@@ -74,6 +76,7 @@ type conn struct {
 	jobs    int
 	preOpen bool // a close notification arrived before the open notification
 	held    bool // the (closed) descriptor number is kept occupied so that nothing else can get it
+	cio     bool // close the conn from inside its open notification
 }
 
 type sess struct {
@@ -144,6 +147,10 @@ func errClass(err error) string {
 		return "unreach"
 	case errors.Is(err, syscall.EAGAIN):
 		return "again"
+	case errors.Is(err, syscall.EBADF):
+		return "ebadf"
+	case errors.Is(err, syscall.EEXIST):
+		return "eexist"
 	}
 	if s := err.Error(); len(s) > 1 && s[0] == 'u' {
 		if _, e := strconv.Atoi(s[1:]); e == nil {
@@ -320,6 +327,11 @@ func (s *sess) onOpen(nc *nbio.Conn) {
 		s.orc = append(s.orc, fmt.Sprintf("c03-close-once conn %d got %d open notifications", ci.id, ci.opens))
 	}
 	s.opens = append(s.opens, strconv.Itoa(ci.id))
+	if ci.cio {
+		s.mu.Unlock()
+		_ = nc.Close()
+		s.mu.Lock()
+	}
 }
 
 func (s *sess) lookup(nc *nbio.Conn) *conn {
@@ -628,6 +640,9 @@ func connectHook(fd int, sa syscall.Sockaddr) {
 		v.ConnectErr = syscall.EINPROGRESS
 	case "refused":
 		v.ConnectErr = syscall.ECONNREFUSED
+	case "regfail":
+		v.ConnectErr = syscall.EINPROGRESS
+		v.Reg = true // EPOLL_CTL_ADD will fail with EEXIST
 	}
 }
 
@@ -638,6 +653,7 @@ func exec(e *lp.Exec) {
 	nbio.MaxOpenFiles = 1 << 14
 	vsys.VirtualAll = true
 	vsys.ConnectHook = connectHook
+	vsys.CtlAfterCloseEBADF = true
 	tmp, err := os.CreateTemp("", "hlife")
 	if err != nil {
 		panic(err)
@@ -701,7 +717,7 @@ func exec(e *lp.Exec) {
 		ci := s.conns[id]
 		bad := func() { e.P("> %s", line); e.P("bad-op") }
 		switch f[0] {
-		case "add":
+		case "add", "addc":
 			if len(f) != 3 || ci != nil || (f[2] != "tcp" && f[2] != "unix") {
 				bad()
 				continue
@@ -711,16 +727,22 @@ func exec(e *lp.Exec) {
 			if f[2] == "unix" {
 				typ = nbio.ConnTypeUnix
 			}
-			ci = &conn{id: id, kind: "add", fd: fd, v: v, c: nbio.VerifNewConn(fd, typ)}
+			ci = &conn{id: id, kind: "add", fd: fd, v: v, c: nbio.VerifNewConn(fd, typ), cio: f[0] == "addc"}
 			s.mu.Lock()
 			s.conns[id] = ci
 			s.byPtr[ci.c] = ci
 			s.mu.Unlock()
 			_, err := s.g.AddConn(ci.c)
 			e.P("> %s", line)
-			s.result(e, "add", errClass(err), ci, 0)
-			e.Count("conns", "add-"+f[2])
-			key.WriteString("A,")
+			if f[0] == "addc" {
+				s.firstCause(e, ci, false, "nil")
+				if s.g.VerifConnAt(fd) == ci.c {
+					e.Oracle("c03-close-once", "conn %d: closed from inside its open notification, but AddConn left it in the fd table", id)
+				}
+			}
+			s.result(e, f[0], errClass(err), ci, 0)
+			e.Count("conns", f[0]+"-"+f[2])
+			key.WriteString("A" + f[0][3:] + ",")
 		case "addudp":
 			if len(f) != 2 || ci != nil {
 				bad()
@@ -746,8 +768,15 @@ func exec(e *lp.Exec) {
 			ci.v.PushDgram(lp.Payload(f[3]), &syscall.SockaddrInet4{Addr: [4]byte{127, 0, 0, 1}, Port: p})
 			e.P("> %s", line)
 			s.result(e, "dgram", "nil", ci, 0)
-		case "dial":
-			if len(f) != 4 || ci != nil || (f[2] != "inprog" && f[2] != "now" && f[2] != "refused") {
+		case "dial", "dialx":
+			if f[0] == "dialx" {
+				if len(f) != 2 {
+					bad()
+					continue
+				}
+				f = []string{"dial", f[1], "regfail", "0"}
+			}
+			if len(f) != 4 || ci != nil || (f[2] != "inprog" && f[2] != "now" && f[2] != "refused" && f[2] != "regfail") {
 				bad()
 				continue
 			}
@@ -777,6 +806,14 @@ func exec(e *lp.Exec) {
 				s.firstCause(e, ci, false, "dtimeout")
 			}
 			e.P("> %s", line)
+			if f[2] == "regfail" {
+				s.settle()
+				s.mu.Lock()
+				if len(ci.closes) > 0 {
+					s.orc = append(s.orc, fmt.Sprintf("c03-close-once conn %d: DialAsync returned an error, and a close notification (%s) was issued for the conn nobody ever saw", id, ci.closes[0]))
+				}
+				s.mu.Unlock()
+			}
 			s.result(e, "dial", errClass(err), ci, 0)
 			e.Count("conns", "dial-"+f[2])
 			fmt.Fprintf(&key, "D%s,", f[2][:1])
@@ -1225,6 +1262,12 @@ func gen(g *lp.Gen) {
 			next++
 			r := g.Intn(100)
 			switch {
+			case r < 6:
+				g.P("addc %d %s", id, g.Pick("tcp", "unix"))
+				conns[id] = &ci{kind: "add", typ: "unix", closed: true}
+			case r < 10:
+				g.P("dialx %d", id)
+				conns[id] = &ci{kind: "dial", dialed: true, closed: true}
 			case r < 45:
 				typ := g.Pick("tcp", "tcp", "unix")
 				g.P("add %d %s", id, typ)
